@@ -40,6 +40,37 @@ def main(tier: str) -> int:
         cases.append(c_)
     for integ in ("generic", "rdflib"):
         cases.extend(campaign.empty_sequence_cases(integ))       # an empty input must still give a valid (options-only) stream
+    # a caller that catches the refusal of an over-sized statement and keeps writing: whatever reaches the output must still be a valid stream
+    from .. import writer  # noqa: PLC0415
+    ctr, ccases = [], []
+    for uk in ("c18-prefix-2-t", "c18-prefix-2-q", "c18-datatype-1-t"):
+        table, cu = U.c18_universes()[uk]
+        behs, _r = writer.simulate(cu, num=(40 if tier == "quick" else 400), hist_len=5, seed=seed + 33)
+        for bi, beh in enumerate(behs):
+            if not any(op["op"] == "reject" for op in beh["hist"]):
+                continue
+            # the model stops at the refusal; the caller goes on with the statements written so far, once more (they share terms with the refused one)
+            more = [op for op in beh["hist"] if op["op"] == "stmt"][:2]
+            beh2 = {"bad": beh["bad"], "hist": beh["hist"] + more}
+            res = writer.replay_stepwise(beh2, cu, writer.Subst(), integ=("rdflib" if (bi % 2 and table == "prefix") else "generic"))
+            c_ = campaign.Case({"universe": uk, "entry": "stepwise-catch-and-continue", "beh": bi}, res["accepted"])
+            c_.replay = {"consts": cu, "ops": [(op["op"], op.get("st")) for op in beh2["hist"]], "raised": res["rejected"], "accepted": res["accepted"]}
+            c_.data = res["bytes"]
+            try:
+                c_.frames = wire.dec_stream(c_.data, delimited=True)
+            except wire.WireError as ex:
+                c_.verdict = {"verdict": f"W-wire-undecodable:{ex}", "at": 0, "n": 0, "aud": {}}
+                cases.append(c_)
+                continue
+            ctr.append({"id": len(ccases), "rows": terms.jrows_of_frames(c_.frames), "mode": "seq", "prefix": True,
+                        "exp": [terms.jitem(terms.norm_item(it)) for it in res["accepted"]]})
+            ccases.append(c_)
+    if ctr:
+        cv = tlc.judge(ctr)
+        cv.pop("__stats__")
+        for i_, c_ in enumerate(ccases):
+            c_.verdict = cv[i_]
+            cases.append(c_)
     # every stream the repository's own tests make pyjelly write (recorded from outside, validity judged by TLC)
     more, info = campaign.repo_test_traffic(tier, max_rows=(60_000 if tier == "quick" else 600_000))
     cases.extend(more)
